@@ -197,7 +197,11 @@ def _classify_list_uses(ctx, rid, f, S: Scope, M: SlotModel, callee_hook=None):
             continue
         # (b) prefix slice
         if isinstance(par, ast.Subscript) and par.value is n and isinstance(par.slice, ast.Slice):
-            tgt = _stmt(n).targets[0].id
+            ast_st = _stmt(n)
+            if not (isinstance(ast_st, ast.Assign) and ast_st.value is par and len(ast_st.targets) == 1
+                    and isinstance(ast_st.targets[0], ast.Name) and ast_st.targets[0].id in M.lists):
+                raise AnalysisError(f"{rid}: {f.qual}: `{norm(st)}` slices the slot list in an unrecognised way")
+            tgt = ast_st.targets[0].id
             R = M.lists[tgt][1]
             good, why = _is_prefix_of(S, M, R, n.id)
             if good:
@@ -316,29 +320,74 @@ def r1_single_slot_list(ctx, rid):
     ctx.ok(rid, gen, st, f"slot list computed once from `{A.id}`", {"sequence_defs": [norm(d) for d in S.rd.defs_reaching(A)]},
            label="slot list computed once")
 
-    # ---- hand-over to _emit_auto_jacobian_block
-    jb = _m(ctx, "_emit_auto_jacobian_block")
-    jparams = [p for p in jb.params if p != jb.self_name]
-    handed = {}
+    # ---- hand-over of the slot list to other methods of the backend (the Jacobian block, extracted emitters, ...): the callee is
+    # analysed like this function, with its parameter as the slot list and the parameter that receives the same sequence as partner
+    analysed: Dict[object, Tuple[str, Optional[str]]] = {}
+    sink_count = [0]
 
-    def hook(c, n, label):
-        if call_name(c) != "_emit_auto_jacobian_block" or not is_attr_of(c.func, selfn, "_emit_auto_jacobian_block"):
-            return False
-        a = _call_args(c, jparams)
-        slot_params = [k for k, v in a.items() if v is n]
-        seq_params = [k for k, v in a.items() if M.same_sequence(n.id, v)]
-        if len(slot_params) == 1 and len(seq_params) == 1 and M.lists[n.id][0] == "full":
-            handed["slots"], handed["names"] = slot_params[0], seq_params[0]
-            ctx.ok(rid, gen, _stmt(c), f"the Jacobian block receives the full slot list as `{slot_params[0]}` together with the same "
-                                       f"sequence as `{seq_params[0]}`", label=label)
-        else:
-            ctx.violation(rid, gen, _stmt(c), f"`{norm(c)}` hands the slot list to the Jacobian block without the sequence it was computed "
-                                              f"for (arguments: {[ast.unparse(v) for k, v in a.items() if k not in slot_params]}): "
-                                              f"DFDP columns and __PYR_ARG_ substitutions use other parameters' slots", label=label)
-            handed["slots"] = slot_params[0] if slot_params else None
-            handed["names"] = None
-        return True
-    _classify_list_uses(ctx, rid, gen, S, M, hook)
+    def make_hook(fc, Sc_, Mc, depth):
+        def hook(c, n, label):
+            if not (isinstance(c.func, ast.Attribute) and is_attr_of(c.func, fc.self_name or "")):
+                return False
+            targets, how = ctx.cg.resolve_call(fc, c)
+            own = ctx.repo.lookup_method(_cls(ctx), c.func.attr)
+            callee = own if own is not None and (own in targets or not targets) else (targets[0] if len(targets) == 1 else None)
+            if callee is None or callee.cls is None or depth > 3:
+                return False
+            cparams = [p for p in callee.params if p != callee.self_name]
+            if any(isinstance(x, ast.Starred) for x in c.args) or any(k.arg is None for k in c.keywords):
+                return False
+            a = _call_args(c, cparams)
+            slot_params = [k for k, v in a.items() if v is n]
+            seq_params = [k for k, v in a.items() if Mc.same_sequence(n.id, v)]
+            if len(slot_params) != 1 or slot_params[0] not in cparams:
+                return False
+            kind = Mc.lists[n.id][0]
+            zips_it = any(isinstance(z, ast.Call) and isinstance(z.func, ast.Name) and z.func.id == "zip"
+                          and any(isinstance(x, ast.Name) and x.id == slot_params[0] for x in z.args) for z in ast.walk(callee.node))
+            is_jac = callee.qualname.endswith("._emit_auto_jacobian_block")
+            if len(seq_params) == 1 and (kind == "full" or not is_jac):
+                ctx.ok(rid, fc, _stmt(c), f"{callee.qualname.split('.')[-1]} receives the {kind} slot list as `{slot_params[0]}` together "
+                                          f"with the same sequence as `{seq_params[0]}`", label=label)
+                names_param = seq_params[0]
+            elif zips_it or is_jac:
+                ctx.violation(rid, fc, _stmt(c), f"`{norm(c)}` hands the slot list to {callee.qualname.split('.')[-1]} without the sequence it "
+                                                 f"was computed for (arguments: {[ast.unparse(v) for k, v in a.items() if k not in slot_params]}): "
+                                                 f"DFDP columns, __PYR_ARG_ substitutions and args(k) lines use other parameters' slots",
+                              label=label)
+                return True
+            else:
+                ctx.ok(rid, fc, _stmt(c), f"{callee.qualname.split('.')[-1]} receives the {kind} slot list as `{slot_params[0]}` (it does not "
+                                          f"pair it with names)", label=label, nontrivial=False)
+                names_param = None
+            prev = analysed.get(callee)
+            if prev is not None:
+                if prev != (slot_params[0], names_param):
+                    raise AnalysisError(f"{rid}: {callee.qual} receives the slot list in two different ways (unrecognised form)")
+                return True
+            analysed[callee] = (slot_params[0], names_param)
+            Sj = Scope(ctx, callee)
+            Mj = SlotModel(ctx, callee, Sj)
+            pdefs = frozenset({id(callee.node.args)})
+            Mj.lists[slot_params[0]] = (kind, ast.Name(id=names_param or "<none>", ctx=ast.Load()), pdefs)
+            base_same = Mj.same_sequence
+
+            def same_seq_j(listname, x, Mj=Mj, names_param=names_param, slot=slot_params[0]):
+                if listname == slot:
+                    return names_param is not None and isinstance(x, ast.Name) and x.id == names_param and Mj.defs(x) == pdefs
+                return base_same(listname, x)
+            Mj.same_sequence = same_seq_j
+            rebound = [s2 for s2 in walk_shallow(callee.node) if isinstance(s2, (ast.Assign, ast.AugAssign, ast.For))
+                       and slot_params[0] in [x.id for t in (s2.targets if isinstance(s2, ast.Assign) else [s2.target])
+                                              for x in ast.walk(t) if isinstance(x, ast.Name)]]
+            for s2 in rebound:
+                ctx.violation(rid, callee, s2, f"the slot list `{slot_params[0]}` is re-bound inside {callee.qualname}",
+                              label=f"rebind {norm(s2)}")
+            _classify_list_uses(ctx, rid, callee, Sj, Mj, make_hook(callee, Sj, Mj, depth + 1))
+            sink_count[0] += _check_templates(ctx, rid, callee, Sj, Mj)
+            return True
+        return hook
+    _classify_list_uses(ctx, rid, gen, S, M, make_hook(gen, S, M, 0))
     n_sinks = _check_templates(ctx, rid, gen, S, M)
 
     # ---- role sinks: parnames / npar / param_idx
@@ -383,32 +432,58 @@ def r1_single_slot_list(ctx, rid):
             continue
         seen.add(key)
         table_check(c, v, "param_idx", "value")
-    e = npar[0][1]
-    if isinstance(e, ast.IfExp):
-        e = e.body
-    good = isinstance(e, ast.Call) and isinstance(e.func, ast.Name) and e.func.id == "max" and len(e.args) == 1 \
-        and isinstance(e.args[0], ast.Name) and e.args[0].id == full_name
+    def largest_slot(e, depth=0) -> Optional[bool]:
+        """True: max of the full slot list (with any guard for the empty list); False: recognisably something else; None: unknown"""
+        e = S.single_value(e)
+        if depth > 4:
+            return None
+        if isinstance(e, ast.IfExp):
+            rs = [largest_slot(e.body, depth + 1), largest_slot(e.orelse, depth + 1)]
+            consts = [isinstance(S.single_value(x), ast.Constant) for x in (e.body, e.orelse)]
+            if True in rs and any(consts):
+                return True
+            return False if False in rs and not any(r is None for r in rs) else (False if rs == [False, False] else None)
+        if isinstance(e, ast.BoolOp) and isinstance(e.op, ast.Or):
+            return largest_slot(e.values[0], depth + 1)
+        if isinstance(e, ast.Call) and isinstance(e.func, ast.Name) and e.func.id == "max" and len(e.args) == 1:
+            a0 = e.args[0]
+            for _ in range(4):
+                if isinstance(a0, ast.Name) and a0.id in M.lists:
+                    return a0.id == full_name
+                if isinstance(a0, ast.BoolOp) and isinstance(a0.op, ast.Or):
+                    a0 = a0.values[0]
+                elif isinstance(a0, ast.Name):
+                    bs = S.binds(a0)
+                    if len(bs) == 1 and bs[0].kind == "value" and not bs[0].path and bs[0].expr is not None:
+                        a0 = bs[0].expr
+                    else:
+                        break
+                else:
+                    break
+            return False if isinstance(a0, ast.Name) else None
+        if isinstance(e, ast.Constant):
+            return False
+        if isinstance(e, ast.Call) and isinstance(e.func, ast.Name) and e.func.id in ("len", "sum", "min"):
+            return False
+        if isinstance(e, ast.BinOp):
+            return False
+        return None
+    good = largest_slot(npar[0][1])
+    if good is None:
+        raise AnalysisError(f"{rid}: npar=`{ast.unparse(npar[0][1])}` handed to _build_auto_constants_file has an unrecognised form")
     if good:
         ctx.ok(rid, gen, _stmt(npar[0][1]), "NPAR is the largest slot of the slot list", label="npar= of _build_auto_constants_file")
     else:
         ctx.violation(rid, gen, _stmt(npar[0][1]), f"NPAR is `{ast.unparse(npar[0][1])}`, not the largest slot of the slot list: with more "
                                                    f"than 9 parameters slots above NPAR are used", label="npar= of _build_auto_constants_file")
 
-    # ---- inside _emit_auto_jacobian_block
-    ctx.require("slots" in handed, f"{rid}: the slot list is not handed to _emit_auto_jacobian_block")
-    if handed.get("slots"):
-        Sj = Scope(ctx, jb)
-        Mj = SlotModel(ctx, jb, Sj)
-        pnode = [n for n in ast.walk(jb.node.args) if isinstance(n, ast.arg) and n.arg == handed["slots"]]
-        names_param = handed.get("names")
-        fake = ast.Name(id=names_param or "<none>", ctx=ast.Load())
-        Mj.lists[handed["slots"]] = ("full", fake, frozenset({id(jb.node.args)}))
-
-        def same_seq_j(listname, x, Mj=Mj):
-            return isinstance(x, ast.Name) and x.id == names_param and Mj.defs(x) == frozenset({id(jb.node.args)})
-        Mj.same_sequence = same_seq_j
-        _classify_list_uses(ctx, rid, jb, Sj, Mj, None)
-        n_sinks += _check_templates(ctx, rid, jb, Sj, Mj)
+    # ---- the Jacobian block must have received the slot list (analysed above through the hand-over)
+    ctx.require(any(g.qualname.endswith("._emit_auto_jacobian_block") for g in analysed) or
+                any(isinstance(c, ast.Call) and call_name(c) == "_emit_auto_jacobian_block" and any(
+                    isinstance(x, ast.Name) and x.id in M.lists for x in list(c.args) + [k.value for k in c.keywords])
+                    for c in walk_shallow(gen.node)),
+                f"{rid}: the slot list is not handed to _emit_auto_jacobian_block")
+    n_sinks += sink_count[0]
 
     # ---- param_idx -> _compose_bvp_body -> _resolve_bvp_residual
     cb = _m(ctx, "_compose_bvp_body")
@@ -499,30 +574,94 @@ def _subst(t, old, new):
     return t
 
 
+def _cat_parts(t) -> list:
+    if isinstance(t, tuple) and t and t[0] == "cat":
+        return _cat_parts(t[1]) + _cat_parts(t[2])
+    return [t]
+
+
+def _helper_calls(ctx, f):
+    """(call, callee) for every `self.m(...)` in f that resolves to a method of the backend class hierarchy"""
+    out = []
+    for c in walk_shallow(f.node):
+        if isinstance(c, ast.Call) and isinstance(c.func, ast.Attribute) and is_attr_of(c.func, f.self_name or ""):
+            g = ctx.repo.lookup_method(_cls(ctx), c.func.attr)
+            if g is not None and g is not f:
+                out.append((c, g))
+    return out
+
+
 def _reorder_term(ctx, rid, f):
-    """The declared-first reordering of function f as a term over D (=_var_declaration_info) and X (the incoming name list)."""
-    S = Scope(ctx, f)
+    """The declared-first reordering of function f as a term over D (=_var_declaration_info) and X (the incoming name list).
+    The reordering may be spelled as an assignment, an augmented assignment or a returned expression, in f itself or in a
+    private helper method that f calls (then `call` is the call site in f).
+    -> (S, stmt, name or None, term, X, host function, call site or None)"""
     cands = []
-    for st in walk_shallow(f.node):
-        t = None
-        if isinstance(st, ast.Assign) and len(st.targets) == 1 and isinstance(st.targets[0], ast.Name) \
-                and isinstance(strip_wrappers(st.value), ast.BinOp):
-            t = _term(S, st.value, st)
-        elif isinstance(st, ast.AugAssign) and isinstance(st.target, ast.Name) and isinstance(st.op, ast.Add):
-            t = ("cat", _term(S, ast.Name(id=st.target.id, ctx=ast.Load()), st), _term(S, st.value, st))
-        if t and t[0] == "cat" and all(isinstance(p, tuple) and p[0] == "filter" for p in t[1:]) and ("D",) in _flatten(t):
-            cands.append((st, t))
-    if len(cands) != 1:
+    hosts = [(f, None)] + [(g, c) for c, g in _helper_calls(ctx, f)]
+    seen = set()
+    for g, call in hosts:
+        if g in seen:
+            continue
+        seen.add(g)
+        S = Scope(ctx, g)
+        for st in walk_shallow(g.node):
+            t = None
+            if isinstance(st, ast.Assign) and len(st.targets) == 1 and isinstance(st.targets[0], ast.Name) \
+                    and isinstance(strip_wrappers(st.value), ast.BinOp):
+                t = _term(S, st.value, st)
+            elif isinstance(st, ast.AugAssign) and isinstance(st.target, ast.Name) and isinstance(st.op, ast.Add):
+                t = ("cat", _term(S, ast.Name(id=st.target.id, ctx=ast.Load()), st), _term(S, st.value, st))
+            elif isinstance(st, ast.Return) and st.value is not None and isinstance(strip_wrappers(st.value), ast.BinOp):
+                t = _term(S, st.value, st)
+            if not t or t[0] != "cat":
+                continue
+            parts = _cat_parts(t)
+            # leading non-filter parts (e.g. the pinned `[return_var]`, the leading `['t', y]`) are not part of the reordering
+            while parts and not (isinstance(parts[0], tuple) and parts[0][0] == "filter"):
+                parts = parts[1:]
+            if len(parts) == 2 and all(isinstance(p, tuple) and p[0] == "filter" for p in parts) and ("D",) in _flatten(parts[0]) + _flatten(parts[1]):
+                cands.append((S, st, ("cat", parts[0], parts[1]), g, call))
+    if not cands:
         raise AnalysisError(f"{rid}: {f.qual}: expected one declaration-order reordering (two filters concatenated, one over "
-                            f"_var_declaration_info), found {len(cands)}")
-    st, t = cands[0]
-    # X = the source that is not derived from D
+                            f"_var_declaration_info), found 0")
+    if len({repr(c[2]) for c in cands}) != 1 or len({c[3] for c in cands}) != 1:
+        raise AnalysisError(f"{rid}: {f.qual}: found {len(cands)} different declaration-order reorderings (unrecognised form)")
+    # prefer the first statement that builds it (the others only repeat / extend it)
+    S, st, t, g, call = sorted(cands, key=lambda c: c[1].lineno)[0]
     srcs = [p[1] for p in t[1:] if ("D",) not in _flatten(p[1])]
     if len(srcs) != 1:
-        raise AnalysisError(f"{rid}: {f.qual}: cannot identify the incoming name list of `{norm(st)}`")
+        raise AnalysisError(f"{rid}: {g.qual}: cannot identify the incoming name list of `{norm(st)}`")
     X = srcs[0]
-    name = st.targets[0].id if isinstance(st, ast.Assign) else st.target.id
-    return S, st, name, _subst(t, X, ("X",)), X
+    name = st.targets[0].id if isinstance(st, ast.Assign) else (st.target.id if isinstance(st, ast.AugAssign) else None)
+    return S, st, name, _subst(t, X, ("X",)), X, g, call
+
+
+def _flows_to(S: Scope, f, start_stmt, seeds_names: Set[str], seed_nodes: List[ast.AST], goal: str) -> Optional[ast.stmt]:
+    """Forward def-use closure inside f: does a value built from the seeds (names assigned at/after `start_stmt`, or the seed
+    expression nodes) reach an assignment of `goal`?  -> that assignment (or start_stmt itself when it assigns goal)."""
+    tainted = set(seeds_names)
+    if start_stmt is not None and goal in tainted:
+        return start_stmt
+    changed = True
+    hit = None
+    while changed and hit is None:
+        changed = False
+        for st in walk_shallow(f.node):
+            if not isinstance(st, (ast.Assign, ast.AugAssign)):
+                continue
+            tg = [x.id for t in (st.targets if isinstance(st, ast.Assign) else [st.target]) for x in ast.walk(t) if isinstance(x, ast.Name)]
+            uses = any((isinstance(x, ast.Name) and isinstance(x.ctx, ast.Load) and x.id in tainted) or any(x is sn for sn in seed_nodes)
+                       for x in ast.walk(st.value))
+            if not uses:
+                continue
+            if goal in tg:
+                hit = st
+                break
+            new = set(tg) - tainted
+            if new:
+                tainted |= new
+                changed = True
+    return hit
 
 
 def _flatten(t):
@@ -537,16 +676,18 @@ def _flatten(t):
 def r2_same_reordering(ctx, rid):
     head = _m(ctx, "generate_func_head")
     gen = _m(ctx, "_generate_auto_files")
-    Sh, sth, nh, th, Xh = _reorder_term(ctx, rid, head)
-    Sg, stg, ng, tg, Xg = _reorder_term(ctx, rid, gen)
+    Sh, sth, nh, th, Xh, hosth, callh = _reorder_term(ctx, rid, head)
+    Sg, stg, ng, tg, Xg, hostg, callg = _reorder_term(ctx, rid, gen)
     ref = ("cat", ("filter", ("D",), (("In", ("X",)),)), ("filter", ("X",), (("NotIn", ("filter", ("D",), (("In", ("X",)),))),)))
     facts = {"generate_func_head": repr(th), "_generate_auto_files": repr(tg), "reference": repr(ref)}
-    for f, st, t, other in ((head, sth, th, "_generate_auto_files"), (gen, stg, tg, "generate_func_head")):
+    for f, st, t, other, host in ((head, sth, th, "_generate_auto_files", hosth), (gen, stg, tg, "generate_func_head", hostg)):
+        at = st if host is f else (callh if f is head else callg)
         if t == ref:
-            ctx.ok(rid, f, st, "declared names first in _var_declaration_info order, then the undeclared rest in incoming order", facts,
+            ctx.ok(rid, f, at, "declared names first in _var_declaration_info order, then the undeclared rest in incoming order"
+                               + ("" if host is f else f" (in its helper {host.qualname})"), facts,
                    label="declaration-order reordering")
         else:
-            ctx.violation(rid, f, st, f"the parameter reordering of {f.qualname} is not `declared names in _var_declaration_info order + the "
+            ctx.violation(rid, f, at, f"the parameter reordering of {f.qualname} is not `declared names in _var_declaration_info order + the "
                                       f"rest` (normal form {t!r}): the i-th forwarded PAR slot no longer meets the i-th parameter of the "
                                       f"subroutine signature / the slot table ({other} uses the other order)", facts,
                           label="declaration-order reordering")
@@ -555,29 +696,62 @@ def r2_same_reordering(ctx, rid):
     rets = [r for r in walk_shallow(head.node) if isinstance(r, ast.Return) and isinstance(r.value, ast.Name)]
     ctx.require(len(rets) == 1, f"{rid}: generate_func_head no longer returns one name list")
     outname = rets[0].value.id
-    uses_h = [s for s in walk_shallow(head.node) if isinstance(s, ast.Assign) and any(isinstance(t, ast.Name) and t.id == outname for t in s.targets)
-              and any(isinstance(n, ast.Name) and n.id == nh for n in ast.walk(s.value))]
-    if uses_h:
-        ctx.ok(rid, head, uses_h[0], f"the reordered list `{nh}` becomes the returned/declared argument list `{outname}`",
+
+    def helper_returns_reordering(host, st):
+        """inside the helper the reordering statement is, or flows into, a returned value"""
+        if isinstance(st, ast.Return):
+            return True
+        nm = st.targets[0].id if isinstance(st, ast.Assign) else st.target.id
+        tainted = {nm}
+        changed = True
+        while changed:
+            changed = False
+            for s2 in walk_shallow(host.node):
+                if isinstance(s2, (ast.Assign, ast.AugAssign)) and any(isinstance(x, ast.Name) and x.id in tainted for x in ast.walk(s2.value)):
+                    new = {x.id for t in (s2.targets if isinstance(s2, ast.Assign) else [s2.target]) for x in ast.walk(t)
+                           if isinstance(x, ast.Name)} - tainted
+                    if new:
+                        tainted |= new
+                        changed = True
+        return any(isinstance(r, ast.Return) and r.value is not None and any(isinstance(x, ast.Name) and x.id in tainted for x in ast.walk(r.value))
+                   for r in walk_shallow(host.node))
+    if hosth is head:
+        hit = _flows_to(Sh, head, sth, {nh}, [], outname)
+    else:
+        hit = _flows_to(Sh, head, None, set(), [callh], outname) if helper_returns_reordering(hosth, sth) else None
+    if hit is not None:
+        ctx.ok(rid, head, hit, f"the reordered list becomes the returned/declared argument list `{outname}`",
                label="reordered list is used", nontrivial=False)
     else:
-        ctx.violation(rid, head, sth, f"the reordered list `{nh}` never reaches the subroutine signature `{outname}`", label="reordered list is used")
+        ctx.violation(rid, head, sth if hosth is head else callh, f"the reordered list never reaches the subroutine signature `{outname}`",
+                      label="reordered list is used")
     calls = [c for c in walk_shallow(gen.node) if isinstance(c, ast.Call) and is_attr_of(c.func, gen.self_name, "_auto_param_indices")]
     seq = calls[0].args[0].id if calls and calls[0].args and isinstance(calls[0].args[0], ast.Name) else None
-    uses_g = [s for s in walk_shallow(gen.node) if isinstance(s, ast.Assign) and any(isinstance(t, ast.Name) and t.id == seq for t in s.targets)
-              and any(isinstance(n, ast.Name) and n.id == ng for n in ast.walk(s.value))]
-    if uses_g and Sg.cfg.dominates(stg, _stmt(calls[0])) is not None:
-        before = uses_g[0].lineno < _stmt(calls[0]).lineno
+    ctx.require(seq is not None, f"{rid}: the sequence handed to _auto_param_indices is not a plain name (unrecognised form)")
+    Sgen = Scope(ctx, gen)
+    if hostg is gen:
+        hit = _flows_to(Sgen, gen, stg, {ng}, [], seq)
+        anchor = stg
+    else:
+        hit = _flows_to(Sgen, gen, None, set(), [callg], seq) if helper_returns_reordering(hostg, stg) else None
+        anchor = _stmt(callg)
+    if hit is not None:
+        before = hit.lineno < _stmt(calls[0]).lineno and Sgen.cfg.reachable_after(hit, _stmt(calls[0]))
         if before:
-            ctx.ok(rid, gen, uses_g[0], f"the reordered list `{ng}` becomes `{seq}` before the slots are computed and tabulated",
+            ctx.ok(rid, gen, hit, f"the reordered list becomes `{seq}` before the slots are computed and tabulated",
                    label="reordered list is used", nontrivial=False)
         else:
-            ctx.violation(rid, gen, uses_g[0], "the reordering happens after the slot list was computed", label="reordered list is used")
+            ctx.violation(rid, gen, hit, "the reordering happens after the slot list was computed", label="reordered list is used")
     else:
-        ctx.violation(rid, gen, stg, f"the reordered list `{ng}` never becomes the sequence `{seq}` the slots are computed for",
+        ctx.violation(rid, gen, anchor, f"the reordered list never becomes the sequence `{seq}` the slots are computed for",
                       label="reordered list is used")
     # both X are the parameter-name list: head filters out the return variable only
-    ok_x = Xg == ("name", seq)
+    if hostg is gen:
+        ok_x = Xg == ("name", seq)
+    else:
+        a = _call_args(callg, [p for p in hostg.params if p != hostg.self_name])
+        recv = [k for k, v in a.items() if isinstance(v, ast.Name) and v.id == seq]
+        ok_x = len(recv) == 1 and Xg == ("name", recv[0])
     if not ok_x:
         raise AnalysisError(f"{rid}: incoming list of the reordering in _generate_auto_files is {Xg!r}, expected the func_args parameter")
 
@@ -616,17 +790,65 @@ def _enum_position(S: Scope, e: ast.AST, seqname: str):
     return (c + start, bs[0].node)
 
 
+def _index_is_foreign(S: Scope, e: ast.AST, depth=0) -> Optional[str]:
+    """A positive reason why index expression `e` is not an enumerate position (literal, slot, plain loop element, counter);
+    None when its provenance is not understood at all."""
+    k, off = split_offset(e)
+    if isinstance(k, ast.Constant):
+        return "a literal"
+    if isinstance(k, ast.BinOp):
+        return "an arithmetic expression"
+    if isinstance(k, ast.Call):
+        return "a call result"
+    if isinstance(k, ast.Subscript):
+        return "a table lookup"
+    if isinstance(k, ast.Name) and depth < 4:
+        bs = S.binds(k)
+        for b in bs:
+            if b.kind in ("iter", "aug", "param"):
+                return f"bound by `{norm(b.node) if not isinstance(b.node, ast.arguments) else 'parameter'}`"
+            if b.kind == "value" and b.expr is not None:
+                return _index_is_foreign(S, b.expr, depth + 1) or None
+    return None
+
+
 def r3_states(ctx, rid):
     gen = _m(ctx, "_generate_auto_files")
     S = Scope(ctx, gen)
     selfn = gen.self_name
     ctx.require("state_vars" in gen.params, f"{rid}: parameter state_vars of _generate_auto_files vanished")
     sinks = []
-    for node, text, holes in templates_in(gen.node):
-        m = re.match(r"^\s*y\(⟨(\d+)⟩\)\s*=\s*(.*)$", text or "")
-        if m:
-            sinks.append((f"stpnt `{text}`".replace("⟨", "{").replace("⟩", "}"), holes[int(m.group(1))],
-                          [holes[int(k)] for k in re.findall(r"⟨(\d+)⟩", m.group(2))], _stmt(node)))
+    # the state list may be handed on unchanged to extracted emitters (private methods): they are searched as well, with the
+    # receiving parameter as the state list
+    scopes = [(gen, S, "state_vars")]
+    seen_callees = {gen}
+    work = [(gen, S, "state_vars")]
+    while work:
+        fc, Sc_, seqn = work.pop()
+        for c in walk_shallow(fc.node):
+            if not (isinstance(c, ast.Call) and isinstance(c.func, ast.Attribute) and is_attr_of(c.func, fc.self_name or "")):
+                continue
+            passed = [x for x in list(c.args) + [k.value for k in c.keywords] if isinstance(x, ast.Name) and x.id == seqn
+                      and all(b.kind == "param" for b in Sc_.binds(x))]
+            if not passed:
+                continue
+            callee = ctx.repo.lookup_method(_cls(ctx), c.func.attr)
+            if callee is None or callee in seen_callees:
+                continue
+            a = _call_args(c, [p for p in callee.params if p != callee.self_name])
+            recv = [k for k, v in a.items() if v is passed[0]]
+            if len(recv) != 1 or recv[0] not in callee.params:
+                continue
+            seen_callees.add(callee)
+            item = (callee, Scope(ctx, callee), recv[0])
+            scopes.append(item)
+            work.append(item)
+    for fc, Sc_, seqn in scopes:
+        for node, text, holes in templates_in(fc.node):
+            m = re.match(r"^\s*y\(⟨(\d+)⟩\)\s*=\s*(.*)$", text or "")
+            if m:
+                sinks.append((f"stpnt `{text}`".replace("⟨", "{").replace("⟩", "}"), holes[int(m.group(1))],
+                              [holes[int(k)] for k in re.findall(r"⟨(\d+)⟩", m.group(2))], _stmt(node), fc, Sc_, seqn))
 
     def kwval(cname, kw):
         for c in walk_shallow(gen.node):
@@ -640,29 +862,38 @@ def r3_states(ctx, rid):
     if isinstance(e, ast.Call) and call_name(e) == "pop" and len(e.args) == 2:
         e = S.single_value(e.args[1])
     ctx.require(isinstance(e, ast.DictComp), f"{rid}: unames is not a dict comprehension (unrecognised form)")
-    sinks.append(("unames key", e.key, [e.value], _stmt(e)))
+    sinks.append(("unames key", e.key, [e.value], _stmt(e), gen, S, "state_vars"))
     c, v = kwval("_compose_bvp_body", "state_indices")
     e = S.single_value(v)
     ctx.require(isinstance(e, ast.DictComp), f"{rid}: state_indices is not a dict comprehension (unrecognised form)")
-    sinks.append(("state_indices value", e.value, [e.key], _stmt(e)))
+    sinks.append(("state_indices value", e.value, [e.key], _stmt(e), gen, S, "state_vars"))
     ctx.require(len(sinks) >= 3, f"{rid}: expected stpnt y(k), unames and state_indices sinks, found {len(sinks)}")
-    for what, idx, vals, st in sinks:
-        r = _enum_position(S, idx, "state_vars")
+    for what, idx, vals, st, fc, Sc_, seqn in sinks:
+        r = _enum_position(Sc_, idx, seqn)
         label = f"state index: {what}"
+        if r is None:
+            if _index_is_foreign(Sc_, idx) is None:
+                raise AnalysisError(f"{rid}: {fc.qual}: {what}: cannot determine where the index `{ast.unparse(idx)}` comes from "
+                                    f"(unrecognised form)")
         if r is None or r[0] == "other":
-            ctx.violation(rid, gen, st, f"{what}: index `{ast.unparse(idx)}` is not the enumerate position of `state_vars`"
-                                        f"{' (it enumerates `' + r[1] + '`)' if r else ''}: NDIM/unames/stpnt would describe different "
-                                        f"state orderings", label=label)
+            ctx.violation(rid, fc, st, f"{what}: index `{ast.unparse(idx)}` is not the enumerate position of `state_vars`"
+                                       f"{' (it enumerates `' + r[1] + '`)' if r else ''}: NDIM/unames/stpnt would describe different "
+                                       f"state orderings", label=label)
         elif r[0] != 1:
-            ctx.violation(rid, gen, st, f"{what}: index `{ast.unparse(idx)}` starts at {r[0]}, Fortran/auto-07p U(k) starts at 1", label=label)
-        elif not all(_mentions_bound_by(S, v, r[1], {split_offset(idx)[0].id}) for v in vals):
-            ctx.violation(rid, gen, st, f"{what}: the name/value stored with the index is not the state variable of the same position", label=label)
+            ctx.violation(rid, fc, st, f"{what}: index `{ast.unparse(idx)}` starts at {r[0]}, Fortran/auto-07p U(k) starts at 1", label=label)
+        elif not all(_mentions_bound_by(Sc_, v, r[1], {split_offset(idx)[0].id}) for v in vals):
+            ctx.violation(rid, fc, st, f"{what}: the name/value stored with the index is not the state variable of the same position", label=label)
         else:
-            ctx.ok(rid, gen, st, f"{what}: 1 + enumerate position of `state_vars`, paired with that variable", label=label)
+            ctx.ok(rid, fc, st, f"{what}: 1 + enumerate position of `state_vars`, paired with that variable", label=label)
     # NDIM
     c, v = kwval("_build_auto_constants_file", "ndim")
-    good = isinstance(v, ast.Call) and call_name(v) == "len" and len(v.args) == 1 and isinstance(v.args[0], ast.Name) \
-        and v.args[0].id == "state_vars" and all(b.kind == "param" for b in S.binds(v.args[0]))
+    v0 = S.single_value(v)
+    a0 = S.single_value(v0.args[0]) if isinstance(v0, ast.Call) and call_name(v0) == "len" and len(v0.args) == 1 else None
+    while isinstance(a0, ast.Call) and isinstance(a0.func, ast.Name) and a0.func.id in ("list", "tuple") and len(a0.args) == 1:
+        a0 = S.single_value(a0.args[0])
+    good = isinstance(a0, ast.Name) and a0.id == "state_vars" and all(b.kind == "param" for b in S.binds(a0))
+    if not good and not (isinstance(v0, (ast.Constant, ast.BinOp)) or (isinstance(v0, ast.Call) and call_name(v0) == "len")):
+        raise AnalysisError(f"{rid}: ndim=`{ast.unparse(v)}` handed to _build_auto_constants_file has an unrecognised form")
     if good:
         ctx.ok(rid, gen, _stmt(v), "NDIM = len(state_vars)", label="ndim= of _build_auto_constants_file")
     else:
@@ -693,26 +924,67 @@ def r3_states(ctx, rid):
     gf = _m(ctx, "generate_func")
     fw = [c for c in walk_shallow(gf.node) if isinstance(c, ast.Call) and is_attr_of(c.func, gf.self_name, "_generate_auto_files")]
     ctx.require(len(fw) == 1, f"{rid}: call of _generate_auto_files in generate_func not recognised")
-    kw = {k.arg: k.value for k in fw[0].keywords}
-    if isinstance(kw.get("state_vars"), ast.Name) and kw["state_vars"].id == "state_vars" and isinstance(kw.get("func_args"), ast.Name) \
-            and kw["func_args"].id == "func_args":
+    Sgf = Scope(ctx, gf)
+    kw = _call_args(fw[0], [p for p in gen.params if p != gen.self_name])
+
+    def same_param(e, name):
+        e = Sgf.single_value(e) if e is not None else None
+        return isinstance(e, ast.Name) and e.id == name and all(b.kind == "param" for b in Sgf.binds(e))
+    if any(isinstance(x, ast.Starred) for x in fw[0].args) or "state_vars" not in kw or "func_args" not in kw:
+        raise AnalysisError(f"{rid}: `{norm(fw[0])}`: cannot see which state_vars/func_args generate_func hands on (unrecognised form)")
+    if same_param(kw.get("state_vars"), "state_vars") and same_param(kw.get("func_args"), "func_args"):
         ctx.ok(rid, gf, fw[0], "generate_func forwards state_vars and func_args unchanged", label="state_vars forwarded", nontrivial=False)
     else:
         ctx.violation(rid, gf, fw[0], "generate_func does not forward its state_vars/func_args unchanged to _generate_auto_files",
                       label="state_vars forwarded")
     tf = ctx.repo.get_func(CG, "ComputeGraph.to_func")
+    Stf = Scope(ctx, tf)
     gcs = [c for c in walk_shallow(tf.node) if isinstance(c, ast.Call) and call_name(c) == "generate_func"]
     ctx.require(len(gcs) == 1, f"{rid}: call of generate_func in to_func not recognised")
-    kw = {k.arg: k.value for k in gcs[0].keywords}
+    kw = _call_args(gcs[0], [p for p in gf.params if p != gf.self_name])
     prop = ctx.repo.get_func(CG, "ComputeGraph.state_vars")
     pr = [r for r in walk_shallow(prop.node) if isinstance(r, ast.Return)]
     src = ast.unparse(pr[0].value) if len(pr) == 1 else ""
-    layout_order = re.sub(r"\s", "", src) in ("list(self.var_updates['DEs'].keys())", "list(self.var_updates['DEs'])")
-    if is_attr_of(kw.get("state_vars"), tf.self_name, "state_vars") and layout_order:
+
+    def des_keys(e, depth=0, selfn=None) -> Optional[bool]:
+        """True: the keys of self.var_updates['DEs'] in dict order; False: recognisably another order/collection; None: unknown"""
+        if e is None or depth > 4:
+            return None
+        if isinstance(e, ast.Call) and isinstance(e.func, ast.Name) and e.func.id in ("list", "tuple") and len(e.args) == 1:
+            return des_keys(e.args[0], depth + 1, selfn)
+        if isinstance(e, ast.Call) and isinstance(e.func, ast.Name) and e.func.id in ("sorted", "reversed", "set", "frozenset"):
+            return False
+        if isinstance(e, ast.Call) and isinstance(e.func, ast.Attribute) and e.func.attr == "keys" and not e.args:
+            return des_keys(e.func.value, depth + 1, selfn)
+        if isinstance(e, ast.Call) and isinstance(e.func, ast.Attribute) and e.func.attr in ("values", "items"):
+            return False
+        if isinstance(e, (ast.List, ast.Tuple)) and len(e.elts) == 1 and isinstance(e.elts[0], ast.Starred):
+            return des_keys(e.elts[0].value, depth + 1, selfn)
+        if isinstance(e, (ast.ListComp, ast.GeneratorExp)) and len(e.generators) == 1 and not e.generators[0].ifs \
+                and isinstance(e.elt, ast.Name) and isinstance(e.generators[0].target, ast.Name) and e.elt.id == e.generators[0].target.id:
+            return des_keys(e.generators[0].iter, depth + 1, selfn)
+        if isinstance(e, ast.Subscript) and isinstance(e.slice, ast.Constant):
+            if is_attr_of(e.value, selfn or prop.self_name or "self", "var_updates"):
+                return e.slice.value == "DEs"
+            return None
+        return None
+    lo = des_keys(pr[0].value) if len(pr) == 1 else None
+    sv = kw.get("state_vars")
+    sv = Stf.single_value(sv) if sv is not None else None
+    if lo is None or sv is None:
+        raise AnalysisError(f"{rid}: cannot decide whether the state list handed to the exporter "
+                            f"(`{ast.unparse(sv) if sv is not None else None}`, property returns `{src}`) is the key order of var_updates['DEs']")
+    direct = None
+    if not is_attr_of(sv, tf.self_name, "state_vars"):
+        direct = des_keys(sv, 0, tf.self_name)
+        if direct is None:
+            raise AnalysisError(f"{rid}: cannot decide whether `{ast.unparse(sv)}` handed to generate_func is the key order of "
+                                f"var_updates['DEs']")
+    if (is_attr_of(sv, tf.self_name, "state_vars") and lo) or direct:
         ctx.ok(rid, tf, gcs[0], "state_vars handed to the exporter are the keys of var_updates['DEs'], the order of the state layout",
                label="state_vars are the layout order")
     else:
-        ctx.violation(rid, tf, gcs[0], f"the state list handed to the exporter (`{ast.unparse(kw.get('state_vars')) if kw.get('state_vars') else None}`, "
+        ctx.violation(rid, tf, gcs[0], f"the state list handed to the exporter (`{ast.unparse(sv)}`, "
                                        f"property returns `{src}`) is not the key order of var_updates['DEs'] used by the state layout",
                       label="state_vars are the layout order")
 
@@ -758,21 +1030,26 @@ def _icp_lists(ctx) -> Dict[str, List[int]]:
 
 
 def _time_slot(ctx):
+    """The forwarding `call <vf>(args(T), y, dy, ...)` line: searched in _generate_auto_files and in every other method of the
+    backend class (the emission of the `func` wrapper may live in an extracted helper)."""
     gen = _m(ctx, "_generate_auto_files")
     hits = []
-    for node, text, holes in templates_in(gen.node):
-        m = re.match(r"^\s*call ⟨\d+⟩\(\s*args\((\d+)\)\s*,\s*y\s*,\s*dy", text or "")
-        if m:
-            hits.append((node, int(m.group(1)), text))
-        elif text and re.match(r"^\s*call\b", text):
-            raise AnalysisError(f"C18: forwarding call `{text}` has an unrecognised form (time slot must be a literal args(k) first argument)")
+    funcs = [gen] + [f for f in _cls(ctx).methods.values() if f is not gen]
+    for f in funcs:
+        for node, text, holes in templates_in(f.node):
+            m = re.match(r"^\s*call ⟨\d+⟩\(\s*args\((\d+)\)\s*,\s*y\s*,\s*dy", text or "")
+            if m:
+                hits.append((f, (node, int(m.group(1)), text)))
+            elif text and re.match(r"^\s*call\b", text) and (f is gen or re.search(r"args\(", text)):
+                raise AnalysisError(f"C18: forwarding call `{text}` has an unrecognised form (time slot must be a literal args(k) first argument)")
     if len(hits) != 1:
         raise AnalysisError(f"C18: expected one forwarding `call <vf>(args(T), y, dy, ...)` line, found {len(hits)}")
-    return gen, hits[0]
+    return hits[0]
 
 
 def r4_time_slot(ctx, rid):
-    gen, (node, T, text) = _time_slot(ctx)
+    tf_, (node, T, text) = _time_slot(ctx)
+    gen = _m(ctx, "_generate_auto_files")
     lo, hi = _blocked_range(ctx)
     st = _stmt(node)
     facts = {"time_slot": T, "blocked_range": [lo, hi], "reserved": list(RESERVED)}
@@ -800,22 +1077,81 @@ def r4_time_slot(ctx, rid):
     pi = _m(ctx, "_auto_param_indices")
     a = _call_args(call, [p for p in pi.params if p != pi.self_name])
     b = a.get([p for p in pi.params if p != pi.self_name][1])
-    good = False
     srcs = []
+
+    def is_range_attr(e):
+        return e is not None and is_attr_of(e, gen.self_name, "_AUTO_BLOCKED_PAR_RANGE") or (
+            isinstance(e, ast.Attribute) and e.attr == "_AUTO_BLOCKED_PAR_RANGE" and isinstance(e.value, (ast.Name, ast.Call, ast.Attribute))
+            and ast.unparse(e.value) in (CLS, f"type({gen.self_name})", f"{gen.self_name}.__class__"))
+
+    def is_none_test(t, name) -> Optional[bool]:
+        """`name is None` -> True, `name is not None` -> False, else None"""
+        if isinstance(t, ast.Compare) and len(t.ops) == 1 and isinstance(t.left, ast.Name) and t.left.id == name \
+                and isinstance(t.comparators[0], ast.Constant) and t.comparators[0].value is None:
+            if isinstance(t.ops[0], (ast.Is, ast.Eq)):
+                return True
+            if isinstance(t.ops[0], (ast.IsNot, ast.NotEq)):
+                return False
+        return None
+
+    def default_applied(e, pname, depth=0) -> Optional[bool]:
+        """`e` evaluates to the caller's range when given and to _AUTO_BLOCKED_PAR_RANGE otherwise: True; another constant: False"""
+        if depth > 4 or e is None:
+            return None
+        if is_range_attr(e):
+            return True
+        if isinstance(e, ast.BoolOp) and isinstance(e.op, ast.Or) and len(e.values) == 2 and isinstance(e.values[0], ast.Name) \
+                and e.values[0].id == pname:
+            return default_applied(e.values[1], pname, depth + 1)
+        if isinstance(e, ast.IfExp):
+            nt = is_none_test(e.test, pname)
+            if nt is None and isinstance(e.test, ast.Name) and e.test.id == pname:
+                nt = False
+            if nt is None:
+                return None
+            dflt, given = (e.body, e.orelse) if nt else (e.orelse, e.body)
+            if isinstance(given, ast.Name) and given.id == pname:
+                return default_applied(dflt, pname, depth + 1)
+            return None
+        if isinstance(e, (ast.Tuple, ast.List, ast.Constant)):
+            return False
+        if isinstance(e, ast.Attribute):
+            return False
+        return None
+    good: Optional[bool] = None
     if isinstance(b, ast.Name):
         for bd in S.binds(b):
             srcs.append(norm(bd.node) if not isinstance(bd.node, ast.arguments) else f"parameter {b.id}")
-        vals = [bd for bd in S.binds(b) if bd.kind == "value"]
-        good = bool(vals) and all(is_attr_of(bd.expr, gen.self_name, "_AUTO_BLOCKED_PAR_RANGE") for bd in vals) \
-            and all(bd.kind in ("value", "param") for bd in S.binds(b))
-        # the parameter definition may only survive when it is not None
-        for bd in vals:
-            g = parent(bd.node)
-            if not (isinstance(g, ast.If) and isinstance(g.test, ast.Compare) and isinstance(g.test.ops[0], ast.Is)
-                    and isinstance(g.test.left, ast.Name) and g.test.left.id == b.id):
-                good = False
-    elif b is not None and is_attr_of(b, gen.self_name, "_AUTO_BLOCKED_PAR_RANGE"):
-        good = True
+        binds = S.binds(b)
+        vals = [bd for bd in binds if bd.kind == "value"]
+        if not all(bd.kind in ("value", "param") for bd in binds) or not vals:
+            good = False if binds and all(bd.kind == "param" for bd in binds) else None
+        else:
+            res = []
+            for bd in vals:
+                pname = b.id
+                # the name that carries the caller's value: the parameter itself, or the parameter this local was derived from
+                r = default_applied(bd.expr, pname)
+                if r is None:
+                    pn = [x.id for x in ast.walk(bd.expr) if isinstance(x, ast.Name) and x.id in gen.params] if bd.expr is not None else []
+                    if len(set(pn)) == 1:
+                        r = default_applied(bd.expr, pn[0])
+                if r and is_range_attr(bd.expr):
+                    # plain `b = RANGE`: must be guarded by `if b is None` (or be unconditional without a parameter definition left)
+                    g = parent(bd.node)
+                    guarded = isinstance(g, ast.If) and (is_none_test(g.test, b.id) is True and bd.node in g.body
+                                                         or is_none_test(g.test, b.id) is False and bd.node in g.orelse
+                                                         or isinstance(g.test, ast.UnaryOp) and isinstance(g.test.op, ast.Not)
+                                                         and isinstance(g.test.operand, ast.Name) and g.test.operand.id == b.id and bd.node in g.body)
+                    if not guarded and any(x.kind == "param" for x in binds):
+                        r = None
+                res.append(r)
+            good = True if all(r is True for r in res) else (False if any(r is False for r in res) else None)
+    elif b is not None:
+        good = default_applied(b, "")
+    if good is None:
+        raise AnalysisError(f"{rid}: cannot decide which range `{ast.unparse(b) if b is not None else None}` ({srcs}) makes "
+                            f"_auto_param_indices skip (unrecognised form)")
     if good:
         ctx.ok(rid, gen, _stmt(call), "the slot computation skips _AUTO_BLOCKED_PAR_RANGE (unless the caller passes a range)", {"defs": srcs},
                label="blocked range reaches _auto_param_indices")
